@@ -20,6 +20,7 @@ M = [
  ("c15-key-bit", ["C15"], R+"decode/flarm.rs", "let table = if ((time >> 23) & 255) & 0x01 != 0 {", "let table = if ((time >> 22) & 255) & 0x01 != 0 {"),
  ("c15-lat-mask", ["C15"], R+"decode/flarm.rs", "let mut lat = (decoded & 0x7FFFF) as i32;", "let mut lat = (decoded & 0x3FFFF) as i32;"),
  ("c15-lon-half", ["C15"], R+"decode/flarm.rs", "if lon >= 0x080000 {", "if lon > 0x080800 {"),
+ ("c15-lon-edge", ["C15"], R+"decode/flarm.rs", "if lon >= 0x080000 {", "if lon >= 0x07FC00 {"),
  ("c15-track-wrap", ["C15"], R+"decode/flarm.rs", "        let track = track.rem_euclid(360.);\n        Ok(if track >= 360. { 0. } else { track })", "        Ok(if track >= 360. { track - 360. } else { track })"),
  ("c15-alt-mask", ["C15"], R+"decode/flarm.rs", "Ok((decoded[1]>>19) & 0x1fff)", "Ok((decoded[1]>>19) & 0x0fff)"),
  # ---- C16 source strings
@@ -27,12 +28,15 @@ M = [
  ("c16-random-hasher", ["C16"], J+"source.rs", "let mut hasher = DefaultHasher::new();", "let mut hasher = { use std::hash::BuildHasher; std::collections::hash_map::RandomState::new().build_hasher() };"),
  ("c16-port-unwrap", ["C16"], J+"source.rs", "                            .parse::<u16>()\n                            .map_err(|e| {\n                                format!(\"A port number was expected: {}\", e)\n                            })?", "                            .parse::<u16>()\n                            .unwrap()"),
  ("c16-long-serial", ["C16"], J+"source.rs", '                        format!("{}:{}", address, port)\n                    }\n                };\n                build_serial(&name)', '                        format!("{}:{}/", address, port)\n                    }\n                };\n                build_serial(&name)'),
- ("c16-ref-swap", ["C16"], R+"decode/cpr.rs", "        let latitude: f64 = parts[0]\n", "        let latitude: f64 = parts[0].trim_start_matches('+')\n"),
+ ("c16-ref-swap", ["C16"], R+"decode/cpr.rs", "        let latitude: f64 = parts[0]\n", "        let latitude: f64 = parts[1]\n"),
+ ("c16-udp-default-host", ["C16"], J+"source.rs", '            "udp" => Address::Udp(format!(\n                "{}:{}",\n                url.host_str().unwrap_or("0.0.0.0"),', '            "udp" => Address::Udp(format!(\n                "{}:{}",\n                url.domain().unwrap_or("0.0.0.0"),'),
  # ---- C17 TUI
  ("c17-next-gt", ["C17"], J+"main.rs", "if i + 1 >= self.items.len() {", "if i + 1 > self.items.len() {"),
  ("c17-sort-letter", ["C17"], J+"main.rs", "(false, Char('f')) => jet1090.sort_key = SortKey::FIRST,", "(false, Char('f')) => jet1090.sort_key = SortKey::LAST,"),
  ("c17-prev-underflow", ["C17"], J+"main.rs", "self.items.len().saturating_sub(1)", "self.items.len() - 1"),
  ("c17-quit-in-search", ["C17"], J+"main.rs", "(false, Char('q')) | (false, Esc) => jet1090.should_quit = true,", "(_, Char('q')) | (false, Esc) => jet1090.should_quit = true,"),
+ ("c17-minus-resets-key", ["C17"], J+"main.rs", "(false, Char('-')) => jet1090.sort_asc = !jet1090.sort_asc,", "(false, Char('-')) => { jet1090.sort_asc = !jet1090.sort_asc; jet1090.sort_key = SortKey::default() }"),
+ ("c17-enter-quits-search-late", ["C17"], J+"main.rs", "(true, Enter) => jet1090.is_search_mode = false,", "(true, Enter) => jet1090.is_search_mode = !jet1090.search_query.is_empty(),"),
  ("c17-search-esc-keeps-mode", ["C17"], J+"main.rs", "                (true, Esc) => {\n                    jet1090.is_search_mode = false;\n", "                (true, Esc) => {\n"),
  # ---- C18 time
  ("c18-leap-19", ["C18"], R+"decode/time.rs", "static LEAP_SECONDS_SINCE_2017: u64 = 18;", "static LEAP_SECONDS_SINCE_2017: u64 = 19;"),
